@@ -79,9 +79,14 @@ Definition xpadding_node (o : padopts) (xi : xinfo) : node :=
                    if negb (i_hascur ci) then CPNone else
                    let '(l, r) := xpadding_values_fixed o xi in CPAsk 0 (xpadding_csize_fixed o) l 0 None false
                  else n_cursor nd s)
-       (* Padding.mouse_event: no bounds when size == () *)
+       (* Padding.mouse_event: maxcol = self.pack((), focus)[0] when size == (); a press on a margin reaches nobody
+          (fix cc624af) *)
        (fun s col row focus =>
-          if is_fixed s then let '(l, r) := xpadding_values_fixed o xi in Some (Routed 0 (xpadding_csize_fixed o) (col - l) row focus)
+          if is_fixed s then
+            let '(l, r) := xpadding_values_fixed o xi in
+            let maxcol := fst (xpadding_pack o xi) in
+            if (col <? l) || (maxcol - r <=? col) then None
+            else Some (Routed 0 (xpadding_csize_fixed o) (col - l) row focus)
           else n_route nd s col row focus)
        (* Padding.move_cursor_to_coords: maxcol = self.pack((), True)[0] *)
        (fun s x y =>
